@@ -34,6 +34,7 @@ def task_tree_utils(ctx):
       ('2 leaves, rank 2, axis 0', [(3, 2), (1, 2)], 0),
       ('3 leaves, rank 3, axis 1', [(2, 1, 3), (2, 4, 3), (2, 2, 3)], 1),
       ('nested dict/tuple, axis -1', [(2, 2), (2, 5), (2, 1)], -1),
+      ('3 leaves, rank 3, axis -2', [(2, 3, 2), (2, 1, 2), (2, 4, 2)], -2),
   ]
   for nm, shapes, axis in shape_sets:
     sp = Space(bits=12)
@@ -72,7 +73,10 @@ def task_tree_utils(ctx):
       back = pu.concat_along_axis([a, b], axis)
       return jax.tree_util.tree_leaves(back), jax.tree_util.tree_leaves(tree)
     prove_close(ctx, 'split_concat_roundtrip', f, leaves, sp, exact=True, twin=False, config=dict(tree=nm, split_idx=idx))
-  for nm, shapes, axis, keep in (('axis 0 squeezed', [(3, 2), (3, 1, 2)], 0, False), ('axis 1 kept', [(2, 3), (4, 3, 2)], 1, True)):
+  for nm, shapes, axis, keep in (('axis 0 squeezed', [(3, 2), (3, 1, 2)], 0, False), ('axis 1 kept', [(2, 3), (4, 3, 2)], 1, True),
+                                 # negative axes count from the end of EACH leaf: leaves of different rank
+                                 ('mixed ranks, axis -1 squeezed', [(4, 3), (2, 3, 3)], -1, False), ('mixed ranks, axis -1 kept', [(4, 3), (2, 3, 3)], -1, True),
+                                 ('mixed ranks, axis -2 squeezed', [(2, 3), (4, 2, 1)], -2, False), ('mixed ranks, axis -2 kept', [(2, 3), (4, 2, 1)], -2, True)):
     sp = Space(bits=12)
     leaves = [PolyArr.variables(sp, f'x{i}', s) for i, s in enumerate(shapes)]
 
